@@ -7,7 +7,8 @@ order, copied as text.  The unwraps are stubs whose precondition is the kind the
 reinterpreted bit pattern under nan_boxing); slice indexing carries Verus' own bound obligation.
 
 What the slice keeps / drops (stated so that a pass is not over-read):
-  * kept: `args[K]` chains in top-level statements of the body, up to and including the first statement that can leave the function (`return`,
+  * kept: `if` statements (and `let X = if ..`) whose condition only tests the NUMBER of arguments (`args.is_empty()`, `args.len() > K`): the
+    condition is kept and both branches are sliced by the same rules; `args[K]` chains in top-level statements of the body, up to and including the first statement that can leave the function (`return`,
     `?`), outside nested blocks and closures and before any `&&` / `||` of the statement; `args[N..].iter().map(|x| x.to_T())` and
     `args.iter()[.skip(N)].map(|x| x.to_T())` tails with an unwrap of the element become a loop over the tail
   * dropped: everything else — unwraps that are only reached conditionally (they may be guarded), unwraps of values that are not arguments
@@ -70,21 +71,52 @@ def _can_exit(stmt):
   toks = [t for t in rsitems.lex(stmt) if t.kind not in ('ws', 'lc', 'bc', 'str', 'char')]
   return any((t.kind == 'id' and t.text in EXIT_WORDS) or (t.kind == 'p' and t.text == '?') or (t.kind == 'id' and t.text in ('panic', 'unreachable', 'todo')) for t in toks)
 
-def _slice_native(body, argn):
-  """-> list of slice statements (text) in source order"""
+_LEN_COND = r'(!?\s*%s\s*\.\s*is_empty\(\)|%s\s*\.\s*len\(\)\s*(?:==|!=|>=|<=|>|<)\s*\d+)'
+
+def _split_if(st, argn):
+  """`[let X =] if COND { A } [else { B }] [;]` with COND a test of the argument COUNT only -> (cond_text, A, B or '') else None"""
+  m = re.match(r'^\s*(?:let\s+(?:mut\s+)?\w+(?:\s*:\s*[^=]+)?\s*=\s*)?if\s+' + (_LEN_COND % (argn, argn)) + r'\s*\{', st)
+  if not m: return None
+  toks = rsitems.lex(st)
+  kb = next(i for i, t in enumerate(toks) if t.end == m.end() and t.text == '{')
+  kc = rsitems.match_close(toks, kb)
+  a = st[toks[kb].end:toks[kc].start]
+  rest = st[toks[kc].end:]
+  me = re.match(r'^\s*else\s*\{', rest)
+  b = ''
+  if me:
+    toks2 = rsitems.lex(rest)
+    kb2 = next(i for i, t in enumerate(toks2) if t.end == me.end() and t.text == '{')
+    kc2 = rsitems.match_close(toks2, kb2)
+    b = rest[toks2[kb2].end:toks2[kc2].start]
+    rest = rest[toks2[kc2].end:]
+  if rest.strip() not in ('', ';'): return None
+  cond = re.sub(r'\s+', '', m.group(1)).replace(argn + '.is_empty()', argn + '.len()==0')
+  if cond.startswith('!'): cond = cond[1:].replace('==0', '!=0')
+  return cond, a, b
+
+def _slice_native(body, argn, depth=0):
+  """-> list of slice items in source order: ('at', K, chain) / ('tail', N, chain) / ('if', cond, [items], [items]); the last element may be
+  ('stop',) when a statement that can leave the function was reached (callers do not continue past it)"""
   out = []
   for st in _statements(body):
-    # variadic tails first (whole statement): args[N..].iter().map(|x| x.to_T()) / for x in &args[N..] { .. x.to_T() .. at the start }
+    sp = _split_if(st, argn) if depth < 3 else None
+    if sp is not None:
+      cond, a, b = sp
+      ia, ib = _slice_native(a, argn, depth + 1), _slice_native(b, argn, depth + 1)
+      stop_a = bool(ia) and ia[-1] == ('stop',); stop_b = bool(ib) and ib[-1] == ('stop',)
+      out.append(('if', cond, [x for x in ia if x != ('stop',)], [x for x in ib if x != ('stop',)]))
+      if stop_a or stop_b or _can_exit(st): out.append(('stop',)); break
+      continue
+    # variadic tails first (whole statement): args[N..].iter().map(|x| x.to_T()) / args.iter()[.skip(N)].map(|x| x.to_T())
     m = re.search(r'\b%s\[(\d+)\.\.\]\s*\.iter\(\)\s*\.(?:map|for_each|all|any|filter|fold)\(\s*\|(\w+)\|\s*\2((?:\s*\.\s*to_\w+\(\))+)' % argn, st)
-    if m:
-      out.append(('tail', int(m.group(1)), re.findall(r'to_\w+', m.group(3))))
+    if m: out.append(('tail', int(m.group(1)), re.findall(r'to_\w+', m.group(3))))
     m = re.search(r'\b%s\s*\.iter\(\)(?:\s*\.skip\((\d+)\))?\s*\.(?:map|for_each|all|any|filter|fold)\(\s*\|(\w+)\|\s*\2((?:\s*\.\s*to_\w+\(\))+)' % argn, st)
-    if m:
-      out.append(('tail', int(m.group(1) or 0), re.findall(r'to_\w+', m.group(3))))
+    if m: out.append(('tail', int(m.group(1) or 0), re.findall(r'to_\w+', m.group(3))))
     head, cut = _uncond_part(st)
     for m in re.finditer(r'\b%s\[(\d+)\]((?:\s*\.\s*to_\w+\(\))*)' % argn, head):
       out.append(('at', int(m.group(1)), re.findall(r'to_\w+', m.group(2))))
-    if _can_exit(st): break
+    if _can_exit(st): out.append(('stop',)); break
   return out
 
 # natives whose obligation FAILS on the pinned tree and is a listed finding (known_findings.json D27): they are generated only in the `findings`
@@ -159,15 +191,25 @@ def generate(repo, variant=None):
       off = 1 if is_m else 0
       kinds = (['Object'] if is_m else []) + md['params']
       arity = '%s(%s)' % (ar, ', '.join(str(n + off) for n in nums))
-      lines = []
-      for kind, idx, chain in sl:
-        if is_m and kind == 'at' and idx == 0: continue          # the receiver
-        if kind == 'at':
-          lines.append('  let _ = args[%d]%s;' % (idx, ''.join('.%s()' % c for c in chain)))
-        else:
-          if is_m and idx == 0: idx = 1       # the receiver
-          lines.append('  let mut verif_t: usize = %d;\n  while verif_t < args.len() invariant verif_t >= %d, gate(Arity::%s, seq![%s], args@) decreases args.len() - verif_t { let _ = args[verif_t]%s; verif_t += 1; }' % (
-            idx, idx, arity, ', '.join('PK::' + k for k in kinds), ''.join('.%s()' % c for c in chain)))
+      gate_txt = 'gate(Arity::%s, seq![%s], args@)' % (arity, ', '.join('PK::' + k for k in kinds))
+      def emit(items_, ind):
+        ls = []
+        for it in items_:
+          if it == ('stop',): continue
+          if it[0] == 'at':
+            _, idx, chain = it
+            if is_m and idx == 0: continue          # the receiver
+            ls.append('%slet _ = args[%d]%s;' % (ind, idx, ''.join('.%s()' % c for c in chain)))
+          elif it[0] == 'tail':
+            _, idx, chain = it
+            if is_m and idx == 0: idx = 1       # the receiver
+            ls.append('%slet mut verif_t: usize = %d;\n%swhile verif_t < args.len() invariant verif_t >= %d, %s decreases args.len() - verif_t { let _ = args[verif_t]%s; verif_t += 1; }' % (
+              ind, idx, ind, idx, gate_txt, ''.join('.%s()' % c for c in chain)))
+          else:
+            _, cond, ia, ib = it
+            ls.append('%sif %s {\n%s\n%s} else {\n%s\n%s}' % (ind, cond, '\n'.join(emit(ia, ind + '  ')), ind, '\n'.join(emit(ib, ind + '  ')), ind))
+        return ls
+      lines = emit(sl, '  ')
       head = '/// %s:%d  %s (%s %s, params %s)\npub fn N_%s(args: &[Value])\n  requires gate(Arity::%s, seq![%s], args@),\n{' % (
         rel, body.count('\n', 0, mb.start()) + 1, st, md['kind'], arity, md['params'], st, arity, ', '.join('PK::' + k for k in kinds))
       text = head + '\n' + '\n'.join(lines) + '\n}\n'
